@@ -42,9 +42,17 @@ Definition new_node_row (other : tables) (add_populations : bool) (k : Z) (r' : 
     (n_pop r = NULL <-> n_pop r' = NULL) /\ (add_populations = false -> n_pop r' = n_pop r) /\
     (n_ind r = NULL -> n_ind r' = NULL).
 
+(* the two parts of check_integrity(other, 0) the node / edge part of union relies on *)
+Definition node_refs_ok (t : tables) : Prop :=
+  forall r, In r (t_nodes t) ->
+    ref_ok (zlen (t_populations t)) (n_pop r) = true /\ ref_ok (zlen (t_individuals t)) (n_ind r) = true.
+Definition edge_refs_ok (t : tables) : Prop :=
+  forall e, In e (t_edges t) ->
+    in_range (zlen (t_nodes t)) (e_parent e) = true /\ in_range (zlen (t_nodes t)) (e_child e) = true.
+
 (* ---- one call of add_and_remap_node in the union loop ---- *)
 Lemma add_node_union other addp s k r :
-  refs_in_range other = true ->
+  node_refs_ok other ->
   getz (t_nodes other) k = Ok r ->
   exists s' r',
     add_and_remap_node other addp s k = Ok s' /\
@@ -55,7 +63,7 @@ Lemma add_node_union other addp s k r :
     (addp = false -> st_pops s' = st_pops s).
 Proof.
   intros R G. unfold add_and_remap_node, get_row. rewrite G. cbn [bind].
-  destruct (refs_nodes other R r (getz_In _ _ _ G)) as [Rp Ri].
+  destruct (R r (getz_In _ _ _ G)) as [Rp Ri].
   (* individual part *)
   assert (exists inds imap new_ind xi,
     (if n_ind r =? NULL then Ok (st_inds s, st_imap s, NULL)
@@ -112,7 +120,7 @@ Lemma getz_mid {A} (pre : list A) m suf : getz (pre ++ m :: suf) (zlen pre) = Ok
 Proof. replace (zlen pre) with (zlen pre + 0) by lia. rewrite getz_app_r by lia. apply getz_cons_0. Qed.
 
 Lemma union_nodes_spec other addp full :
-  refs_in_range other = true ->
+  node_refs_ok other ->
   zlen full <= zlen (t_nodes other) ->
   forall suf pre s, full = pre ++ suf ->
   exists s' rows,
@@ -219,13 +227,13 @@ Lemma firstn_app_exact {A} (a b : list A) : firstn (length a) (a ++ b) = a.
 Proof. induction a; cbn; auto. now f_equal. Qed.
 
 Lemma union_raw_spec self other mapping addp u :
-  refs_in_range other = true ->
+  node_refs_ok other -> edge_refs_ok other ->
   zlen mapping = zlen (t_nodes other) ->
   union_raw self other mapping addp = Ok u ->
   union_adds self other mapping addp u /\
   t_edges u = t_edges self ++ map (union_edge self mapping) (filter (edge_is_new mapping) (t_edges other)).
 Proof.
-  intros R L H. unfold union_raw in H.
+  intros R Re L H. unfold union_raw in H.
   destruct (seed_individual_map self other 0 mapping mnull) as [imap0| | |]; cbn [bind] in H; try discriminate.
   destruct (union_nodes_spec other addp mapping R ltac:(lia) mapping []
               (mkSt (t_individuals self) (t_populations self) (t_nodes self) imap0 mnull mnull) eq_refl)
@@ -238,7 +246,6 @@ Proof.
   2:{ intros j Hj. rewrite U4. assert ((0 <=? j) && (j <? zlen mapping) = true) as -> by lia.
       unfold union_node_id. destruct (getz mapping j) as [m| | |]; auto. destruct (m =? NULL); auto.
       rewrite Z.sub_0_r. reflexivity. }
-  2:{ apply (refs_edges other R). }
   cbn [bind] in H.
   destruct (union_sites mapping (st_nmap s) (zlen (t_nodes other)) (t_sites other) 0 (t_mutations other)
                         (t_sites self) (t_mutations self)) as [[ss ms]| | |]; cbn [bind] in H; try discriminate.
@@ -288,8 +295,8 @@ Proof.
   destruct (parents_sites _ _ _ _ _ _) as [ms| | |]; cbn [bind]; intros H; inversion H; subst. cbn. auto.
 Qed.
 
-Theorem union_adds_exactly_lemma : forall self other mapping check_shared add_populations u,
-  refs_in_range other = true ->
+Theorem union_adds_exactly_weak : forall self other mapping check_shared add_populations u,
+  node_refs_ok other -> edge_refs_ok other ->
   union self other mapping check_shared add_populations = Ok u ->
   (* the node mapping was well formed *)
   zlen mapping = zlen (t_nodes other) /\ bad_map self mapping = false /\
@@ -301,7 +308,7 @@ Theorem union_adds_exactly_lemma : forall self other mapping check_shared add_po
   Permutation (t_edges u)
               (t_edges self ++ map (union_edge self mapping) (filter (edge_is_new mapping) (t_edges other))).
 Proof.
-  intros self other mapping chk addp u R H. unfold union in H.
+  intros self other mapping chk addp u R Re H. unfold union in H.
   destruct (zlen mapping =? zlen (t_nodes other)) eqn:L; cbn [negb] in H; [|discriminate].
   apply Z.eqb_eq in L.
   destruct (bad_map self mapping) eqn:BM; [discriminate|].
@@ -311,7 +318,7 @@ Proof.
   destruct (sort_tables t1) as [t2| | |] eqn:S1; cbn [bind] in H; try discriminate.
   destruct (deduplicate_sites t2) as [t3| | |] eqn:D; cbn [bind] in H; try discriminate.
   destruct (sort_tables t3) as [t4| | |] eqn:S2; cbn [bind] in H; try discriminate.
-  destruct (union_raw_spec _ _ _ _ _ R L U) as [[[rows [N1 N2]] [I1 [P1 P2]]] E1].
+  destruct (union_raw_spec _ _ _ _ _ R Re L U) as [[[rows [N1 N2]] [I1 [P1 P2]]] E1].
   destruct (sort_tables_keeps _ _ S1) as [a1 [a2 [a3 a4]]].
   destruct (dedup_keeps _ _ D) as [b1 [b2 [b3 b4]]].
   destruct (sort_tables_keeps _ _ S2) as [c1 [c2 [c3 c4]]].
@@ -320,6 +327,19 @@ Proof.
   - unfold union_adds. rewrite d1, c1, b1, a1, d3, c3, b3, a3, d4, c4, b4, a4.
     split; eauto.
   - rewrite d2, c2, b2, a2, E1. reflexivity.
+Qed.
+
+Theorem union_adds_exactly_lemma : forall self other mapping check_shared add_populations u,
+  refs_in_range other = true ->
+  union self other mapping check_shared add_populations = Ok u ->
+  zlen mapping = zlen (t_nodes other) /\ bad_map self mapping = false /\
+  union_adds self other mapping add_populations u /\
+  Permutation (t_edges u)
+              (t_edges self ++ map (union_edge self mapping) (filter (edge_is_new mapping) (t_edges other))).
+Proof.
+  intros self other mapping chk addp u R. apply union_adds_exactly_weak.
+  - intros r Hr. now apply refs_nodes.
+  - intros e He. now apply refs_edges.
 Qed.
 
 (* refusal: with check_shared_equality the two shared portions (subset on the mapped nodes,
